@@ -650,6 +650,13 @@ func (cs *Contracts) parseContractText(pkgPath, file string, text string, baseLi
 				if j := strings.LastIndex(body, " before \""); j > idx {
 					idx, before = j, true
 				}
+				if strings.HasSuffix(body, " at exit") {
+					body = strings.TrimSuffix(body, " at exit") + " after \"$exit\""
+					idx = strings.LastIndex(body, " after \"")
+				} else if strings.HasSuffix(body, " at entry") {
+					body = strings.TrimSuffix(body, " at entry") + " before \"$entry\""
+					idx, before = strings.LastIndex(body, " before \""), true
+				}
 				if idx < 0 {
 					errf("%s needs an anchor: after \"stmt\"", first)
 					continue
